@@ -2,6 +2,9 @@ import Mathlib.Tactic.FieldSimp
 import Mathlib.Tactic.Ring
 import Mathlib.Tactic.Linarith
 import AcryoVerif.Lemmas.PyLemmas
+import Mathlib.Algebra.BigOperators.Fin
+import Mathlib.Algebra.BigOperators.Ring.Finset
+import Mathlib.Logic.Equiv.Fin.Basic
 import AcryoVerif.Gen.Bin
 
 /-!
@@ -71,5 +74,51 @@ theorem block_correspondence (p σ : ℚ) (b n k j : Int) (hσ : σ ≠ 0) (hb :
 /-- `b = 1` is the identity: no translation, same scale (the code returns a copy). -/
 theorem bin_one (σ : ℚ) : binTrLoader 1 σ = 0 ∧ binScaleLoader 1 σ = σ := by
   simp [binTrLoader, binScaleLoader]
+
+/-! ## binning twice = binning once (every history of binnings) -/
+
+/-- block sum along one axis of an (infinite) voxel sequence: output voxel `i` is the sum of the `b`
+voxels starting at `b·i` (`Gen.binIsBlockSum`) -/
+def binF (b : Nat) (f : Nat → ℚ) (i : Nat) : ℚ := ∑ r : Fin b, f (b * i + r)
+
+/-- **Composition**: binning by `a` and then by `b` is binning by `a·b` — voxel by voxel. -/
+theorem bin_bin (a b : Nat) (f : Nat → ℚ) (i : Nat) : binF b (binF a f) i = binF (a * b) f i := by
+  unfold binF
+  rw [← Finset.sum_product']
+  rw [Nat.mul_comm a b]
+  refine Fintype.sum_equiv finProdFinEquiv _ _ ?_
+  rintro ⟨r, q⟩
+  simp only [finProdFinEquiv_apply_val]
+  congr 1
+  ring
+
+/-- … and so are the output lengths (`(s // a) // b = s // (a·b)`), … -/
+theorem bin_bin_length (s a b : Int) (hs : 0 ≤ s) (ha : 1 ≤ a) (hb : 1 ≤ b) :
+    (binAxis (binAxis s a).1 b).1 = (binAxis s (a * b)).1 := by
+  simp only [binAxis, Py.ifloordiv]
+  have h1 : s.fdiv a = s / a := Int.fdiv_eq_ediv_of_nonneg _ (by omega)
+  have h2 : (s / a).fdiv b = s / a / b := Int.fdiv_eq_ediv_of_nonneg _ (by omega)
+  have h3 : s.fdiv (a * b) = s / (a * b) := Int.fdiv_eq_ediv_of_nonneg _ (by positivity)
+  rw [h1, h2, h3, Int.ediv_ediv_of_nonneg (by omega)]
+
+/-- … the molecule translations (`-(a-1)/2·σ` then `-(b-1)/2·(σ a)` = `-(ab-1)/2·σ`) and the scales. -/
+theorem bin_bin_pose (a b : Int) (σ : ℚ) :
+    binTrLoader a σ + binTrLoader b (binScaleLoader a σ) = binTrLoader (a * b) σ ∧
+    binScaleLoader b (binScaleLoader a σ) = binScaleLoader (a * b) σ := by
+  simp only [binTrLoader, binScaleLoader]
+  push_cast
+  constructor <;> ring
+
+/-- **Mass is conserved** over the voxels that are kept: the binned axis sums to the sum of the first
+`b·(s // b)` input voxels. -/
+theorem bin_mass (b n : Nat) (f : Nat → ℚ) :
+    ∑ i ∈ Finset.range n, binF b f i = ∑ t ∈ Finset.range (b * n), f t := by
+  induction n with
+  | zero => simp
+  | succ n ih =>
+    rw [Finset.sum_range_succ, ih, Nat.mul_succ, Finset.sum_range_add]
+    congr 1
+    unfold binF
+    rw [Finset.sum_range]
 
 end C15
